@@ -191,7 +191,15 @@ func (w *WAL) Read() ([]types.Entry, error) {
 		// data length
 		var n int64
 		if err = binary.Read(reader, binary.LittleEndian, &n); err != nil {
+			if errors.Is(err, io.EOF) || errors.Is(err, io.ErrUnexpectedEOF) {
+				// incomplete trailing record (the write was cut by a crash), it was never acknowledged
+				break
+			}
 			return nil, err
+		}
+		if n < 0 || n > int64(reader.Len()) {
+			// incomplete trailing record (the write was cut by a crash), it was never acknowledged
+			break
 		}
 
 		// data body
